@@ -62,7 +62,7 @@ let () =
       else ()) toks;
     if !panic then incr skip else begin
       let evl = List.rev !evs in
-      match run cfg init evl O with
+      match run cfg (init cfg) evl O with
       | (_, None) -> incr acc
       | (_, Some k) -> incr rej; let k = int_of_nat k in
           Printf.printf "%s REJECT at %d: %s   [%s]\n" id k (show_event (List.nth evl k)) (String.concat " " (List.map show_event evl))
